@@ -96,6 +96,29 @@ SPECS = [
          ],
          raises={'*': {'ensures': ["raised('e9') or raised('h1')"]}},
          serves=PROP + ["C02", "C07"]),
+    dict(id='S-Combined',
+         # "definitions first, then the guards, then content or replacement, then tag omission
+         # and attributes" -- all statements on ONE element (the order they are written in is
+         # irrelevant: unit permute)
+         text='A<p k="s" tal:define="a e1" tal:condition="e3" tal:content="e7" '
+              'tal:attributes="k e9" tal:omit-tag="e8">x</p>B',
+         own_names=['a'],
+         ensures=[
+             "evals(1) == 1 and evals(3) == 1",
+             # the guard sees the definition; a false guard removes the element and nothing
+             # inside it is evaluated
+             "visible_at('e3', 'a') is val(1)",
+             "bool(val(3)) or (S() == S0() + 'AB' and trace('e1', 'e3'))",
+             "not (bool(val(3)) and bool(val(8))) or (trace('e1', 'e3', 'e8', 'e7') and "
+             "S() == S0() + 'A' + ('x' if val(7) is DEFAULT() else ('' if quoted(val(7), None, '\\xad', None, None) is None else piece(quoted(val(7), None, '\\xad', None, None)))) + 'B')",
+             "not (bool(val(3)) and not bool(val(8))) or (trace('e1', 'e3', 'e8', 'e9', 'e7') and "
+             "S() == S0() + 'A<p' + ('' if quoted(val(9), '\"', '&quot;', 's', DEFAULT()) is None else ' k=\"' + piece(quoted(val(9), '\"', '&quot;', 's', DEFAULT())) + '\"') + '>' + ('x' if val(7) is DEFAULT() else ('' if quoted(val(7), None, '\\xad', None, None) is None else piece(quoted(val(7), None, '\\xad', None, None)))) + '</p>B')",
+             "not bool(val(3)) or visible_at('e7', 'a') is val(1)",
+             # the definition ends with the element
+             "visible('a') is visible0('a')", "scope_frame('a')",
+         ],
+         raises={'*': {'ensures': ["raised('e1') or raised('e3') or raised('e7') or raised('e8') or raised('e9')"]}},
+         serves=PROP + ["C05", "C07"]),
     dict(id='S-Repeat', text='A<li tal:repeat="i e4">%s</li>B' % H1,
          own_names=['i'],
          loops={1: {
